@@ -287,6 +287,10 @@ class HTTP(BaseComponent):
 
         clen = int(req.headers.get('Content-Length', '0'))
         if (clen or req.headers.get('Transfer-Encoding') == 'chunked') and not parser.is_message_complete():
+            if parser.errno is not None:
+                # e.g. an invalid chunk size: the body will never be complete
+                del self._buffers[sock]
+                return self.fire(httperror(req, res, 400))
             return None
 
         if hasattr(sock, 'getpeercert'):
